@@ -23,8 +23,8 @@ Definition is_chardata (t : ntype) : bool :=
   match t with TText | TCData | TComment => true | _ => false end.
 
 (** DOMException codes that the modelled operations raise; E_INTERNAL marks exhausted fuel (never reached) *)
-Inductive exc := INDEX_SIZE | HIERARCHY | WRONG_DOC | INVALID_CHAR | NO_MOD | NOT_FOUND | NOT_SUPPORTED | NAMESPACE | INUSE | E_INTERNAL.
-Inductive result := ROk | RNode (i : id) | RStr (s : str) | RErr (e : exc) | RSkip.
+Inductive exc := INDEX_SIZE | HIERARCHY | WRONG_DOC | INVALID_CHAR | NO_MOD | NOT_FOUND | NOT_SUPPORTED | NAMESPACE | INUSE | INVALID_ACCESS | E_INTERNAL.
+Inductive result := ROk | RNode (i : id) | RStr (s : str) | RErr (e : exc) | RSkip | RData (d : N).
 Definition is_err (r : result) : bool := match r with RErr _ => true | _ => false end.
 
 Definition is_space (c : N) : bool := N.eqb c 32 || N.eqb c 9 || N.eqb c 10 || N.eqb c 13.
@@ -97,6 +97,12 @@ Inductive op :=
 | OSetAttrNode (e a : id)                (* setAttributeNode: the replaced Attr or null *)
 | ORemoveAttrNode (e a : id)             (* removeAttributeNode *)
 | OGetAttrNode (e : id) (nm : str)       (* getAttributeNode *)
+| OSetUserData (n : id) (key : str) (data : N) (handler : bool)   (* data 0 = null; returns the previous data *)
+| OGetUserData (n : id) (key : str)
+| ORelease (n : id) (force : bool)        (* DOMNode::release(); see Model13.release_node for [force] *)
+| OSetIdAttr (e : id) (nm : str) (isid : bool)
+| OSetIdAttrNode (e a : id) (isid : bool)
+| OGetById (doc : id) (v : str)
 | ORename (doc n : id) (ns nm : str)      (* Document.renameNode(n, namespaceURI, qualifiedName); ns = [] is null *).
 
 
